@@ -102,6 +102,14 @@ def check_guards(ctx, cfg):
         src_ok = src is not None and isinstance(src, tuple) and src[:3] == ("V", "iter", "into_iter") and src[3] == ("V", "arg", 1)
         oks, errs = c07.results(a)
         e_ok = bool(errs) and bool(lens) and all(a.prove(e["facts"], "Ne", lens[0].ret[1], N) for e in errs)
+        # the Vec is still an untouched ordinary owner on the Err paths: no call took `&mut v` (set_len, drain, ...) before them
+        for e in errs:
+            for c in a.calls:
+                if a.dominates(c.bb, e["site"][0]) and c.bb != e["site"][0]:
+                    for av, op in zip(c.args, c.term["args"]):
+                        ot = a.operand_ty(op)
+                        if av[0] == "P" and av[1] == ("local", 1) and ot is not None and ot.get("k") == "ref" and ot["mut"]:
+                            e_ok = False
         ctx.ob(rule, key, ok and src_ok and e_ok, "fill reached only under v.len() == N: %s; source is v.into_iter() (elements in order, C07.Z): %s; Err only under len != N with the Vec untouched: %s" % (ok, src_ok, e_ok), at=b["at"], cfg=cfg)
     # delegations
     for key, chain in ((K + "try_from_vec", ["alloc::vec::Vec::<T, A>::into_boxed_slice", K + "try_from_boxed_slice"]),
